@@ -142,3 +142,42 @@ Lemma trigger_reentry_equiv fx s anc done rest :
 Proof.
   unfold trigger_reentry, trigger_on_chain. intros H. rewrite add_all_app, H. reflexivity.
 Qed.
+
+(* ---------------------------------------------------------------- readers and the write critical sections *)
+(* between operations the last group is found by id *)
+Lemma inv_last_by_id P g0 s : InvP P g0 s -> get_by_id s (gid (last s)) = Some (last s).
+Proof.
+  intros (l & Hc & Hhd & _ & _ & _ & Hg & _). destruct l as [|g r]; [destruct Hc|].
+  cbn [hd_error] in Hhd. injection Hhd as <-. unfold get_by_id. rewrite Hg, lookup_cons, N.eqb_refl.
+  reflexivity.
+Qed.
+
+(* after the 4th store write: the memory state of save_mid / remove_mid (the sqlite row is written later) *)
+Lemma save_sub_4 s g : lf_read (save_sub 4 s g) = lf_read (save_mid s g).
+Proof. reflexivity. Qed.
+
+Lemma remove_sub_4 s g pg : get_by_id s (gpre g) = Some pg ->
+  lf_read (remove_sub 4 s g) = lf_read (remove_mid s g).
+Proof. intros E. unfold remove_sub, remove_mid, remove. rewrite E. reflexivity. Qed.
+
+(* save writes the id record first: at every point inside save every group that was retrievable by id
+   still is (so a by-id reader without the lock sees nothing wrong during an addition) *)
+Lemma save_sub_by_id k s g i : i <> gid g -> get_by_id (save_sub k s g) i = get_by_id s i.
+Proof.
+  intros H. unfold get_by_id, save_sub. cbn [st groups].
+  destruct (Nat.leb 1 k); [|reflexivity]. unfold upd.
+  destruct (N.eqb_spec i (gid g)); [congruence|reflexivity].
+Qed.
+
+(* remove deletes the id record first: a by-id reader that does not take the lock sees, after that first
+   write, LastGroup() (and "gcurrent", the height index, the count) still naming a group that
+   GetGroupById cannot find - which no state between operations shows *)
+Lemma unlocked_by_id_reader_refuted :
+  let s := fst (run true wg0 (init wg0) [Add wg1]) in
+  let m := remove_sub 1 s (last s) in
+  last m = set_height wg1 1 /\ count m = 2 /\ get_by_height s 1 = Some (last m) /\
+  get_by_id m (gid (last m)) = None /\
+  forall s', InvW wg0 s' -> get_by_id s' (gid (last s')) <> None.
+Proof.
+  cbn zeta. repeat split. intros s' HI. rewrite (inv_last_by_id _ _ _ HI). discriminate.
+Qed.
